@@ -120,6 +120,14 @@ def _temporal_tabulate(ctx) -> None:
                 foreign = w.other_zone("a tzinfo that is not a pendulum timezone")
                 for zone in (None, w.other_zone(None), foreign):
                     x = w.datetime(wall, fold, zone=zone)
+                    # the instance is of a subclass: `self.__class__` is not the name `DateTime` of the module - a copy built with the
+                    # hard-coded class loses the type
+                    def _tagged(*a_, **k_):
+                        o_ = w.ctor(*a_, **k_)
+                        vars(o_)["_of_subclass"] = True
+                        return o_
+                    sub = minieval.ClassStub(**{**vars(w.ctor), "_new": _tagged})
+                    vars(x)["_ctor"] = sub
                     if zone is foreign:
                         vars(x)["tz"] = vars(x)["timezone"] = None       # DateTime.tz / .timezone answer None for a tzinfo that is not pendulum's
                     elif zone is not None:
@@ -131,9 +139,9 @@ def _temporal_tabulate(ctx) -> None:
                         label = f"DateTime({wall.isoformat(' ')}, fold={fold}, {'aware' if zone is None else 'foreign tzinfo' if zone is foreign else 'naive'}).{meth}"
                         got = w.call(x, meth, list(args))
                         if meth != "__deepcopy__":
-                            fn_, a, kw = rebuild(got, w.ctor)
-                            if fn_ is not w.ctor:
-                                bad.append(f"{label}: the callable is not the instance's class")
+                            fn_, a, kw = rebuild(got, sub)
+                            if fn_ is not sub:
+                                bad.append(f"{label}: the callable is not the instance's class" + (" (it is the DateTime class itself: a subclass instance comes back as a plain DateTime)" if fn_ is w.ctor else ""))
                                 continue
                             names = ["year", "month", "day", "hour", "minute", "second", "microsecond", "tzinfo"]
                             f = dict(zip(names, a))
@@ -141,6 +149,9 @@ def _temporal_tabulate(ctx) -> None:
                             g = {"_wall": _dt.datetime(*[f.get(k, 0) for k in names[:7]]) if all(k in f for k in names[:3]) else None, "fold": f.get("fold", 0), "tzinfo": f.get("tzinfo")}
                         else:
                             g = vars(got) if isinstance(got, minieval.Obj) else {}
+                            if isinstance(got, minieval.Obj) and not g.get("_of_subclass"):
+                                bad.append(f"{label}: the copy is built with the DateTime class itself, not with the instance's class (a subclass instance comes back as a plain DateTime)")
+                                continue
                             g = {"_wall": g.get("_wall"), "fold": g.get("fold"), "tzinfo": None if (zone is not None and zone is not foreign and getattr(g.get("tzinfo"), "name", "") == "None") else g.get("tzinfo")}
                         want_tz = vars(x)["tzinfo"]
                         if g["_wall"] != wall:
